@@ -43,13 +43,13 @@ pub const SEP_WS1: [&str; 6] = [" ", "", "  ", "\t", "\n ", " \n  "];
 /// whitespace between the parts of a relation
 pub const PART_WS: [&str; 4] = [" ", "", "  ", "\t"];
 /// whitespace between list items
-pub const ITEM_WS: [&str; 3] = [" ", "  ", "\t"];
+pub const ITEM_WS: [&str; 5] = [" ", "  ", "\t", "\n", "\n "];
 pub const KINDS: usize = 3; // entry, empty entry, substvar
 pub const SUBSTVAR: &str = "${a:B}";
 
 pub const REL_SLOTS: usize = 11;
 // name, archqual, op, version, archs, profiles, ws name-paren, ws op-version, ws before archs, ws before profiles, item ws
-const REL_MENUS: [usize; REL_SLOTS] = [2, 3, 6, 3, 5, 8, 4, 3, 4, 4, 3];
+const REL_MENUS: [usize; REL_SLOTS] = [2, 3, 6, 3, 5, 8, 4, 3, 4, 4, 5];
 
 /// Slot layout: [lead ws, trail ws, trailing comma] then per entry: [kind, ws before ',', ws after ','] + per alt: [ws before '|', ws after '|'] + relation slots
 pub fn menus(sk: RSkel) -> Vec<usize> {
